@@ -616,8 +616,9 @@ static bool usable(const MatDesc &md, const Coars &c) {
 
 static void static_part() {
     auto cs = coarsenings(); auto av = amg_variants();
-    auto for_matrix = [&](const MatDesc &md) {
+    auto for_matrix = [&](const MatDesc &md, bool with_rmerge = true) {
         for (size_t ci = 0; ci < cs.size(); ++ci) for (size_t ai = 0; ai < 4; ++ai) for (int nt : {1, 17}) {
+            if (nt == 17 && !with_rmerge) continue;
             if (!vf::take_in_group([&]{ return std::string(vf::KS() << "st|" << md.id << "|" << cs[ci].name << "|" << av[ai].name << "|t" << nt); })) continue;
             if (!usable(md, cs[ci])) { vf::count("rs_skipped_row_without_negative_offdiag"); continue; }
             Cfg cfg{cs[ci], av[ai], "spai0", nt};
@@ -629,9 +630,10 @@ static void static_part() {
     for (int n = 2; n <= nmax; ++n) for (int rule = 0; rule < 2; ++rule) {
         for (uint64_t mask = 0; mask < (1ull << fam::npairs(n)); ++mask) {
             if (!vf::take_group()) continue;
-            for_matrix(MatDesc{vf::KS() << "sym" << n << "r" << rule << "m" << mask, fam::sym_pattern(n, mask, rule)});
+            // n = 6 (thorough only): the mixed-sign rule runs with saad only (the 17-fiber teams cost ~100x)
+            for_matrix(MatDesc{vf::KS() << "sym" << n << "r" << rule << "m" << mask, fam::sym_pattern(n, mask, rule)}, !(n == 6 && rule == 1));
         }
-        vf::space(vf::KS() << "static: all symmetric off-diagonal patterns n=" << n << " value rule " << rule << " x 9 coarsening settings x 4 amg settings x SpGEMM {saad (1 thread), rmerge (17 threads)}");
+        vf::space(vf::KS() << "static: all symmetric off-diagonal patterns n=" << n << " value rule " << rule << " x 9 coarsening settings x 4 amg settings x SpGEMM " << (n == 6 && rule == 1 ? "{saad (1 thread)}" : "{saad (1 thread), rmerge (17 threads)}"));
     }
     // all nonsymmetric patterns n = 2..4; symmetric patterns with nonsymmetric values n = 5
     for (int n = 2; n <= 4; ++n) for (int rule : {0, 2}) {
